@@ -193,10 +193,61 @@ def run_c09(ctx, fa):
 
 
 # ------------------------------------------------------------------------------------ C20
-def generate_case(fa, cid, raw, n, seed):
+class ScriptedRandom:
+    """An adversarial state of the library's random source: every bounded draw returns its lower bound, its upper bound or a seeded value,
+    following a script. Off-by-one range errors in the generator need exactly such states to manifest."""
+
+    def __init__(self, seed, script):
+        self._r = random.Random(seed)
+        self._script = script
+        self._i = 0
+
+    def _mode(self):
+        m = self._script[self._i % len(self._script)]
+        self._i += 1
+        return m
+
+    def randint(self, a, b):
+        m = self._mode()
+        return a if m == "lo" else b if m == "hi" else self._r.randint(a, b)
+
+    def randrange(self, *a):
+        return self._r.randrange(*a)
+
+    def random(self):
+        m = self._mode()
+        return 0.0 if m == "lo" else 0.9999999999999999 if m == "hi" else self._r.random()
+
+    def getrandbits(self, k):
+        m = self._mode()
+        return 0 if m == "lo" else (1 << k) - 1 if m == "hi" else self._r.getrandbits(k)
+
+    def choices(self, pop, k=1):
+        return self._r.choices(pop, k=k)
+
+    def choice(self, seq):
+        return self._r.choice(seq)
+
+    def seed(self, *a):
+        pass
+
+
+def generate_case(fa, cid, raw, n, seed, script=None):
+    import fastavro.utils as U
     from fastavro.utils import generate_many, generate_one
     from fastavro.validation import validate
-    c = {"id": cid, "op": "generate", "schema": proj.pj(raw), "n": n, "seed": seed}
+    c = {"id": cid, "op": "generate", "schema": proj.pj(raw), "n": n, "seed": seed, "script": script or []}
+    if script:
+        saved = U.random
+        U.random = ScriptedRandom(seed, script)
+        try:
+            return _generate_case(fa, c, raw, n, seed, generate_many, generate_one, validate)
+        finally:
+            U.random = saved
+    return _generate_case(fa, c, raw, n, seed, generate_many, generate_one, validate)
+
+
+def _generate_case(fa, c, raw, n, seed, generate_many, generate_one, validate):
     try:
         fa.parse_schema(raw)
     except Exception as e:  # noqa: BLE001
@@ -251,12 +302,13 @@ def run_c20(ctx, fa):
         g = gen.Gen(rnd, logical=rnd.random() < 0.5, max_depth=rnd.choice([1, 2, 2, 3]), big=False, recursive=rnd.random() < 0.7)
         ir = g.schema()
         raw = g.render(ir)
-        c = generate_case(fa, "g%d" % len(cases), raw, rnd.choice([-1, 0, 1, 2, 3, 17 if len(cases) % 9 == 0 else 2]), rnd.randint(0, 2 ** 32))
+        script = rnd.choice([None, None, ["lo"], ["hi"], ["lo", "hi"], ["mid", "lo", "mid", "hi"], ["hi", "mid", "mid"]])
+        c = generate_case(fa, "g%d" % len(cases), raw, rnd.choice([-1, 0, 1, 2, 3, 17 if len(cases) % 9 == 0 else 2]), rnd.randint(0, 2 ** 32), script)
         c["nodes"] = gen.count_nodes(ir)
         c["recursive_through_collection"] = rec_through_collection(ir, g)
         cases.append(c)
     ctx.rule = ("seeded valid schemas (logical types, by-name and recursive references, every top-level kind) x n in {generate_one, 0, 1, 2, 3, 17} x "
-                "random.seed states; every value must conform per AvroValue!Conforms, validate, be written by the schemaless and container writers "
+                "random.seed states and scripted adversarial states of the random source (every bounded draw at its lower / upper bound); every value must conform per AvroValue!Conforms, validate, be written by the schemaless and container writers "
                 "and read back as Norm; non-trivial = >= 2 schema nodes")
     core.judge_cases(ctx, cases, "generate", ("C20.",), nontrivial_fn=lambda c: c["nodes"] >= 2, sig_fn=sig_c20,
                      describe=lambda c: "n=%s seed=%s schema=%s" % (c["n"], c["seed"], repr(proj.unpj(c["schema"]))[:200]))
